@@ -161,7 +161,7 @@ func runWorker(id, tier string, lo, hi int, out string) int {
 	if v, err := strconv.ParseInt(os.Getenv("VERIF_DEADLINE_UNIXMS"), 10, 64); err == nil && v > 0 {
 		dl = time.UnixMilli(v)
 	}
-	opt := explore.Options{Deadline: dl, WantSamples: 1}
+	opt := explore.Options{Deadline: dl, WantSamples: 2}
 	res := explore.Run(mine, opt)
 	writeJSON(out, workerOut{Result: res, WallS: time.Since(start).Seconds()})
 	return 0
@@ -364,8 +364,10 @@ func runParent(id, tier string) int {
 					merged.MaxDevs = w.MaxDevs
 				}
 				merged.Failures = append(merged.Failures, w.Failures...)
-				if len(merged.Samples) < 4 {
-					merged.Samples = append(merged.Samples, w.Samples...)
+				merged.Samples = append(merged.Samples, w.Samples...)
+				if len(merged.Samples) > 64 {
+					sort.SliceStable(merged.Samples, func(i, j int) bool { return len(merged.Samples[i].Choices) > len(merged.Samples[j].Choices) })
+					merged.Samples = merged.Samples[:16]
 				}
 				merged.PerScenario = append(merged.PerScenario, w.PerScenario...)
 				mu.Unlock()
@@ -421,6 +423,11 @@ func runParent(id, tier string) int {
 	}
 	wall := time.Since(start).Seconds()
 	exhaustive := merged.ScenariosCut == 0 && len(hangs) == 0
+	// prefer samples that took choices (they show what an explored case looks like)
+	sort.SliceStable(merged.Samples, func(i, j int) bool { return len(merged.Samples[i].Choices) > len(merged.Samples[j].Choices) })
+	if len(merged.Samples) > 4 {
+		merged.Samples = merged.Samples[:4]
+	}
 	samples := []any{}
 	for _, s := range merged.Samples {
 		samples = append(samples, s)
